@@ -132,6 +132,7 @@ SCHEDULES = {
     "fixed1": dict(adaptive=False, n_steps=1),
     "fixed2": dict(adaptive=False, n_steps=2),
     "fixed4": dict(adaptive=False, n_steps=4),
+    "fixed4_cap2": dict(adaptive=False, n_steps=4, max_n_steps=2),
     "adaptive_half": dict(adaptive=True, min_step=0.5),
     "adaptive_cap2": dict(adaptive=True, max_n_steps=2),
     "adaptive_cap3": dict(adaptive=True, max_n_steps=3),
